@@ -152,12 +152,7 @@ def run(chk):
                                   "impl": im.name + "/" + im.protocol})
     chk.log(f"{len(cases)} histories; implementation-side failures: {len(fails)}")
     chk.coverage["traces_validated_against_impl"] = len(cases)
-    mism = []
-    if broken is None:
-        try:
-            mism = common.run_cases("Layout", cases, shard=150)
-        except common.CoqError as e:
-            broken = f"correspondence could not be evaluated: {e}"
+    mism, translated, broken = common.run_model_and_translated(chk, "Layout", "LayoutGen", cases, broken, shard=150)
     fails.sort(key=lambda f: len(json.dumps(f, default=repr)))
     for f in fails[:3]:
         chk.violation(f)
@@ -165,7 +160,11 @@ def run(chk):
         for i in mism[:3]:
             chk.violation({"kind": "model-vs-implementation", "correspondence": "Corr.Layout.check_case (model Layout.Packed)",
                            "schema": meta[i][0], "unroll": meta[i][1], "history": meta[i][2]}, no_failing_input=True)
-        if not mism and broken is not None:
+        for i in ([] if mism else translated[:3]):
+            # the model agrees with the implementation, the translated source does not: the translator or its run-time library misreads Python
+            chk.violation({"kind": "translated-source-vs-implementation", "correspondence": "Corr.LayoutGen.check_translated (gen/PyEncoder.v run in Coq)",
+                           "schema": meta[i][0], "unroll": meta[i][1], "history": meta[i][2]}, no_failing_input=True)
+        if not mism and not translated and broken is not None:
             chk.violation({"kind": "proof-obligation", "broken": broken, "theorem": "Props/C04.v"}, no_failing_input=True)
     chk.assumptions += ["name resolution (first match, declaration before use) is the model's; the float log2 in get_packed_size/_get_type_length is exact for enum maxima < 2^48 (the generated range)",
                         "impl/signal-block field values other than ints and 7-bit strings are abstracted to XOther"]
